@@ -80,6 +80,12 @@ def kids_shapes(op=None):
     # $and_any_order[a, $and_any_order[b, c]] keeps b and c adjacent)
     yield "nested", lambda: [untyped(Name("x1"), cid="x1"),
                              untyped(op or "$and_any_order", [untyped(Name("y1"), cid="y1"), untyped(Name("y2"), cid="y2")], cid="x2")]
+    # the same, both nodes repeated the same way: the inner quantifier is the inner group's own (C02)
+    def _nested_times():
+        inner = untyped(op or "$and_any_order", [untyped(Name("y1"), cid="y1"), untyped(Name("y2"), cid="y2")], cid="x2")
+        inner.times = J.gd.TimesType(2, 2)
+        return [untyped(Name("x1"), cid="x1"), inner]
+    yield "nested-times", _nested_times
     yield "seq", lambda: SymSeq("children", untyped(Name("xg"), cid="xg"), min_len=1)
     yield "empty", lambda: []
     yield "none", lambda: None
@@ -117,7 +123,7 @@ def _check_children(res, kshape, expect_builder, expect_ctx, log: BuildLog):
 def _operator_typing():
     for cname in ("none", "MNEMONIC", "DEREF"):
         for op, cls in list(OPERATORS.items()):
-            for kshape in ("k2", "nested", "seq", "empty", "none"):
+            for kshape in ("k2", "nested", "nested-times", "seq", "empty", "none"):
                 sid = f"typing:{op}:{cname}:{kshape}"
 
                 def run(cname=cname, op=op, cls=cls, kshape=kshape, sid=sid):
@@ -130,10 +136,13 @@ def _operator_typing():
                         log.calls.clear()
                         with patched_build(log, levels):
                             b = getattr(J.ast_builder, BUILDER_OF_CTX[cname])()
-                            return b.build(untyped(op, mk(), cid="root"), CTX[cname]())
+                            root = untyped(op, mk(), cid="root")
+                            if kshape == "nested-times":
+                                root.times = J.gd.TimesType(2, 2)
+                            return b.build(root, CTX[cname]())
                     run_ = sym_run(fn)
                     obs: List[Ob] = []
-                    props = ["C03", "C17"]
+                    props = ["C03", "C17", "C02"]
                     for i, p in enumerate(run_.paths):
                         base = f"NodeBuilder.build:{sid}:p{i}"
                         if kshape in ("empty", "none"):
@@ -154,7 +163,7 @@ def _operator_typing():
                                              f"children of {op} are built in order, each by {BUILDER_OF_CTX[cname]} in the operator's own context "
                                              f"({LEVEL_OF_CTX[cname]} level)", ok, props + ["C05"], detail=why, witness=why))
                     return obs
-                scenario(sid, NB, ["C03", "C17", "C05"],
+                scenario(sid, NB, ["C03", "C17", "C05", "C02"],
                          inlined=["NaryOperatorHandler.handle/_handle_children", "And/Or/AndAnyOrderHandler._build_node",
                                   "build_handler_chain", "get_builder_for_context"],
                          doc="typing of an operator node; recursive builds answered by the contract")(run)
@@ -252,6 +261,39 @@ def _leaf_typing():
 
 
 _leaf_typing()
+
+
+def _leaf_concrete_names():
+    """item names that merely LOOK like operator names (x86 mnemonics `and`, `or`, `not`; fragments of `$and_any_order`, `$deref`)
+    are ordinary items: operators are recognised by their exact name only"""
+    names = ["and", "or", "not", "deref", "any_order", "and_any_order", "an", "$an", "d", "nd", "xor", "andn", "$"]
+    for cname, want in (("none", "PatternNodeMnemonic"), ("MNEMONIC", "PatternNodeOperand"), ("DEREF", "PatternNodeDerefProperty")):
+        sid = f"typing:leaf-concrete:{cname}"
+
+        def run(cname=cname, want=want, sid=sid):
+            ensure()
+            obs: List[Ob] = []
+            for nm in names:
+                for with_ops in ((False, True) if cname == "none" else (False,)):
+                    levels: Dict[str, str] = {}
+                    log = BuildLog()
+                    try:
+                        with patched_build(log, levels):
+                            b = getattr(J.ast_builder, BUILDER_OF_CTX[cname])()
+                            kids = [untyped("%eax", cid="o1"), untyped("%ebx", cid="o2")] if with_ops else None
+                            r = b.build(untyped(nm, kids, cid="root"), CTX[cname]())
+                        got = type(r).__name__
+                        ok = got == want and r.name == nm
+                    except Exception as e:     # noqa
+                        got, ok = repr(e), False
+                    obs.append(simple_ob(f"NodeBuilder.build:{sid}:{nm}:ops={int(with_ops)}:POST-CLASS", NB, "POST",
+                                         f"an item named {nm!r} in context {cname} is typed {want} (it is not an operator)", ok, ["C03", "C01"],
+                                         detail=got, witness=f"{nm} -> {got}"))
+            return obs
+        scenario(sid, NB, ["C03", "C01"], inlined=["handler chain dispatch on the item name"], doc="operator look-alike names are leaves")(run)
+
+
+_leaf_concrete_names()
 
 
 # --------------------------------------------------------------------------- $deref typing
